@@ -2,9 +2,11 @@
 
 Spec:
   {"driver": "tick"|"run",
+   "multi": bool                              events are fired to the two channels ('a','b') at once, handlers spread over them
    "waves": [[ [node, prio], ... ], ...]}     wave k is fired from outside before tick k (run: wave 0 only, before run())
   node = {"id": n, "handlers": [{"prio": p, "stop": bool, "flush": bool, "raise": bool, "kids": [[node, prio], ...]}, ...]}
-A handler fires its kids, then (flush) calls self.flush() recursively, then (stop) calls event.stop(), then (raise) raises.
+A handler fires its kids, then (flush) calls self.flush() recursively, then (stop) calls event.stop() and (refire) fires the
+same event object again, then (raise) raises.
 
 Oracle (c) is an online reference queue machine replayed over the harness' own action log (FIRE / event start): whenever an
 event starts while the model's current pass is empty a new pass is taken (the queue sorted by (priority, fire sequence));
@@ -54,6 +56,7 @@ def _node_strategy(max_depth):
             'stop': st.sampled_from([False] * 5 + [True]),
             'flush': st.sampled_from([False] * 9 + [True]),
             'raise': st.sampled_from([False] * 9 + [True]),
+            'refire': st.sampled_from([False] * 7 + [True]),
             'kids': kids})
 
     def extend(children):
@@ -94,6 +97,7 @@ class C02(Prop):
         first = st.lists(st.tuples(n, st.sampled_from(EV_PRIOS)).map(list), min_size=1, max_size=3)
         return st.fixed_dictionaries({
             'driver': st.sampled_from(['tick', 'run']),
+            'multi': st.sampled_from([False, False, True]),
             'waves': st.tuples(first, st.lists(wave, max_size=3)).map(lambda t: [t[0]] + t[1]),
         }).map(lambda s: dict(s, waves=_renumber(s['waves'])))
 
@@ -101,25 +105,40 @@ class C02(Prop):
     def _run_real(self, spec):
         log = []      # ('fire', parent|None, kid id, prio) | ('h', eid, hi) | ('hend', eid, hi) | ('fb', eid, hi) | ('fe', eid, hi)
 
+        multi = bool(spec.get('multi'))
+        chans = ('a', 'b') if multi else ()
+
         class App(BaseComponent):
+            def _dispatcher(self, event, channels, remaining):
+                if isinstance(event, node):
+                    event._dn = getattr(event, '_dn', 0) + 1     # observer: which dispatch of this event object is this
+                return super()._dispatcher(event, channels, remaining)
+
             @H('exception', channel='*')
             def _x(self, etype, evalue, tb, handler=None, fevent=None):
                 if not isinstance(evalue, Boom):
                     log.append(('stray', repr(evalue)))
 
-        app = App()
+        class Sub(BaseComponent):
+            pass
+
+        # multi: events are fired to the two channels ('a', 'b') at once; even handler slots listen on 'a' (root), odd ones on 'b'
+        app = App(channel='a' if multi else '*')
+        sub = Sub(channel='b' if multi else '*').register(app)
 
         def mk(hi, hp):
             @H('node', priority=hp)
             def f(self, event, n):
                 if hi >= len(n['handlers']) or n['handlers'][hi]['prio'] != hp:
                     return
+                if getattr(event, '_dn', 1) > 1:
+                    return      # second dispatch of a re-fired event object: outside the model
                 h = n['handlers'][hi]
                 log.append(('h', n['id'], hi))
                 try:
                     for kid, kp in h['kids']:
                         log.append(('fire', n['id'], kid['id'], kp))
-                        self.fire(node(kid), priority=kp)
+                        self.fire(node(kid), *chans, priority=kp)
                         log.append(('fired', n['id'], kid['id']))
                     if h.get('flush'):
                         log.append(('fb', n['id'], hi))
@@ -127,6 +146,9 @@ class C02(Prop):
                         log.append(('fe', n['id'], hi))
                     if h['stop']:
                         event.stop()
+                        if h.get('refire'):
+                            # defer/requeue pattern: after stop() the very same event object is fired again
+                            self.fire(event, *chans, priority=7)
                     if h.get('raise'):
                         raise Boom((n['id'], hi))
                 finally:
@@ -136,7 +158,8 @@ class C02(Prop):
 
         for hi in range(MAX_H):
             for hp in sorted(set(H_PRIOS)):
-                app.addHandler(mk(hi, hp))
+                (sub if hi % 2 else app).addHandler(mk(hi, hp))
+        driver.settle(app, 10)
 
         waves = spec['waves']
         exhausted = False
@@ -149,7 +172,7 @@ class C02(Prop):
                         if t < len(waves):
                             for n, p in waves[t]:
                                 log.append(('fire', None, n['id'], p))
-                                app.fire(node(n), priority=p)
+                                app.fire(node(n), *chans, priority=p)
                         elif driver.quiescent(app):
                             break
                         app.tick()
@@ -160,7 +183,7 @@ class C02(Prop):
                 else:
                     for n, p in waves[0]:
                         log.append(('fire', None, n['id'], p))
-                        app.fire(node(n), priority=p)
+                        app.fire(node(n), *chans, priority=p)
                     idle = driver.run_to_quiescence(app, max_iter=200)
                     exhausted = idle.exhausted or idle.blocked > 0
             except BaseException as e:  # noqa
@@ -283,6 +306,10 @@ class C02(Prop):
         ranh = [(l[1], l[2]) for l in log if l[0] == 'h']
         if any(specs[e]['handlers'][hi]['stop'] for e, hi in ranh):
             classes.append('stop-executed')
+        if spec.get('multi'):
+            classes.append('fired-to-two-channels')
+        if any(specs[e]['handlers'][hi].get('refire') and specs[e]['handlers'][hi]['stop'] for e, hi in ranh):
+            classes.append('stop-then-refire-same-object')
         if any(specs[e]['handlers'][hi].get('flush') for e, hi in ranh):
             classes.append('recursive-flush')
         if any(specs[e]['handlers'][hi].get('raise') and specs[e]['handlers'][hi]['stop'] for e, hi in ranh):
